@@ -414,6 +414,44 @@ def rule_no_narrowing(ctx, rule, cls, what, minimum=1):
     ctx.need(rule, "integral members of %s assigned from integral parameters" % short(cls), n, minimum)
 
 
+def rule_validate_before_commit(ctx, rule, scope, what, minimum=1):
+    """G-commit: a function of the scope that can refuse its arguments (it reaches a raise of its own) writes no data member of its object on a
+    path that can still reach that raise: what it refuses leaves no trace (a declaration that was rejected is not half made). scope: predicate on Fn."""
+    prog = ctx.prog
+    cg = callgraph(ctx)
+    nf = 0
+    seen = set()
+    for f in sorted(prog.fns.values(), key=lambda g: g.id):
+        if not f.has_cfg or not f.file.startswith("/repo/") or f.kind in ("ctor", "dtor") or not scope(f) or (f.file, f.line) in seen:
+            continue
+        rb = [b for b in f.reachable_blocks() if f.is_noreturn(b)]
+        if not rb:
+            continue
+        seen.add((f.file, f.line))
+        nf += 1
+        bad = None
+        for (fq, base, node, bid, i, how) in cg.field_writes(f):
+            if how != "write" or base != "this" or std_lookup(node):
+                continue
+            after, st = set(), [bid]
+            while st:
+                x = st.pop()
+                for to, _ in f.succs(x):
+                    if to not in after:
+                        after.add(to)
+                        st.append(to)
+            # a raise later in the same block counts as well
+            same = any(isinstance(e2.get("expr"), dict) and any(isinstance(y, dict) and y.get("k") == "call" and y.get("noreturn") for y in walk(e2["expr"])) for e2 in f.elems(bid)[i + 1:])
+            hit = [b for b in rb if b in after]
+            if hit or same:
+                bad = (fq, node, hit[0] if hit else bid)
+                break
+        ctx.check(bad is None, rule, f, "refusal-leaves-no-trace:%s" % short(f.qual),
+                  "%s writes %s (line %s) and can still refuse the call afterwards (raise in B%s): %s" % (short(f.qual), short(bad[0]) if bad else "", bad[1].get("ln") if bad else "", bad[2] if bad else "", what),
+                  (f, bad[1].get("ln") if bad else None), why_ok="every member write lies behind the last raise")
+    ctx.need(rule, "refusing functions in scope", nf, minimum)
+
+
 def delegating_overload(prog, f):
     """the sibling overload g when f does nothing but hand its own parameters to g - `R name(A&& a, B b) { name(a, b); return std::move(a); }`,
     `void reset(std::nullptr_t) { reset(); }`: one call of a same-named function with another signature whose arguments are f's parameters
